@@ -14,6 +14,15 @@ import (
 	"github.com/keep-network/keep-core/pkg/protocol/group"
 )
 
+func validateMemberIndex(protoIndex uint32) error {
+	// Protobuf does not have uint8 type, so we are using uint32. When
+	// unmarshalling, we need to make sure we do not overflow.
+	if protoIndex > group.MaxMemberIndex {
+		return fmt.Errorf("invalid member index value: [%v]", protoIndex)
+	}
+	return nil
+}
+
 // Marshal converts ThresholdSigner to byte array.
 func (ts *ThresholdSigner) Marshal() ([]byte, error) {
 	return proto.Marshal(&pb.ThresholdSigner{
@@ -54,6 +63,10 @@ func (ts *ThresholdSigner) Unmarshal(bytes []byte) error {
 		return err
 	}
 
+	if err := validateMemberIndex(pbThresholdSigner.MemberIndex); err != nil {
+		return err
+	}
+
 	groupPublicKey := new(bn256.G2)
 	_, err := groupPublicKey.Unmarshal(pbThresholdSigner.GroupPublicKey)
 	if err != nil {
@@ -88,6 +101,10 @@ func unmarshalGroupPublicKeyShares(
 	var unmarshalled = make(map[group.MemberIndex]*bn256.G2, len(shares))
 
 	for memberID, shareBytes := range shares {
+		if err := validateMemberIndex(memberID); err != nil {
+			return nil, err
+		}
+
 		share := new(bn256.G2)
 		_, err := share.Unmarshal(shareBytes)
 		if err != nil {
